@@ -869,14 +869,20 @@ fn oracle_c16(out: &mut RunOut, model: &Model, raw: &Raw) {
     let n = model.defs.len();
     let indexed: Vec<bool> = model.defs.iter().map(|d| raw.cached.contains(&d.file)).collect();
     let mut edges: Vec<Vec<(String, BTreeSet<usize>)>> = vec![vec![]; n];
+    // self-named dependencies for which the model accepts "nothing" as well as a shadowed import: the
+    // fixture may or may not depend on itself
+    let mut maybe_self_loop: BTreeSet<usize> = BTreeSet::new();
     let mut ambiguous = false;
     for i in 0..n {
         if !indexed[i] {
             continue;
         }
         for (dep, e) in model.dep_edges(i) {
-            if e.accept.len() > 1 {
+            if e.accept.len() > 1 || e.none_ok {
                 ambiguous = true;
+            }
+            if e.none_ok && model.defs[i].name == dep {
+                maybe_self_loop.insert(i);
             }
             if model.defs[i].name == dep {
                 out.count("probe.self_named_dependency", 1);
@@ -930,7 +936,7 @@ fn oracle_c16(out: &mut RunOut, model: &Model, raw: &Raw) {
             for c in &cur {
                 for (dep, acc) in &edges[*c] {
                     if dep == name {
-                        if acc.is_empty() && *dep == model.defs[*c].name {
+                        if (acc.is_empty() || maybe_self_loop.contains(c)) && *dep == model.defs[*c].name {
                             next.insert(*c);
                         }
                         next.extend(acc.iter().copied());
